@@ -3,7 +3,7 @@ From Coq Require Import Reals Lra QArith.
 From Coquelicot Require Import Coquelicot.
 From OV.base Require Import Num Piecewise.
 From OV.model Require Import M_C18.
-From OV.proofs Require Import L_C18.
+From OV.proofs Require Import L_C18 L_C18b.
 Local Open Scope R_scope.
 
 Ltac dnum := unfold_num; cbn [quarter]; q2r; unfold Rleb, Rltb, pw.
@@ -21,3 +21,11 @@ Proof. unfold d_slin, dslin. dnum. destruct (Rle_dec x l), (Rle_dec x (1 - l)); 
 Lemma d_friction_ok s0 s1 mu sReg :
   fst (@d_friction R NumR s0 s1 mu sReg) = mu * (dfE sReg (s0 * s0 + s1 * s1) * (2 * s0)).
 Proof. unfold d_friction, dfE. dnum. cbn [fst]. destruct (Rle_dec (s0 * s0 + s1 * s1) (sReg * sReg)); reflexivity. Qed.
+
+Lemma d_smax_dy_ok x y e : @d_smax_dy R NumR x y e = dsmin_dx (- x) e (- y).
+Proof. unfold d_smax_dy. rewrite d_smin_dx_ok. reflexivity. Qed.
+Lemma d_friction_ok_1 s0 s1 mu sReg :
+  snd (@d_friction R NumR s0 s1 mu sReg) = mu * (dfE sReg (s0 * s0 + s1 * s1) * (2 * s1)).
+Proof. unfold d_friction, dfE. dnum. cbn [snd]. destruct (Rle_dec (s0 * s0 + s1 * s1) (sReg * sReg)); reflexivity. Qed.
+Lemma d_sstep_ok x : @d_sstep R NumR x = dsstep x.
+Proof. unfold d_sstep, dsstep. dnum. destruct (Rle_dec x 0), (Rle_dec x 1); try reflexivity; ring. Qed.
